@@ -1,0 +1,9 @@
+//go:build verif
+// +build verif
+
+package pool
+
+// VerifNormalizeNodeURI exposes normalizeNodeURI (verification hook).
+func VerifNormalizeNodeURI(nodeURI, nodeID, defaultHost, defaultPort string) (string, error) {
+	return normalizeNodeURI(nodeURI, nodeID, defaultHost, defaultPort)
+}
